@@ -83,6 +83,7 @@ class PinWorld:
         self.switch_busy_until = {}
         self.ambiguous_reentries = 0
         self.ambiguous_devs = set()
+        self.confirmed_by_newcomer = {}      # source device -> id of its ball whose (failed) eject a newcomer confirmed
         self.waiting_for_jam_clear = set()   # devices whose shaken balls settle only once the jam ball has left
         self.uncountable_devs = set()   # devices whose count MPF cannot get right for a sensing reason (see _enter)
         self.reentry_at_timeout = 0
@@ -228,6 +229,7 @@ class PinWorld:
         if ball.kind != "dev" or ball.dev != info.name:
             return      # already gone (e.g. second pulse acted on the same ball)
         sw = ball.switch
+        entered = ball.since
         ball.kind, ball.src, ball.dst, ball.switch = "transit", info.name, info.target.name, None
         ball.since = self.sim.now
         # another ball that entered this device within its count delay (possibly in this very instant) makes the
@@ -235,6 +237,12 @@ class PinWorld:
         ball.ambiguous = any(o is not ball and o.kind == "dev" and o.dev == info.name and
                              self.sim.now - o.since <= max(info.entrance_count_delay, info.exit_count_delay) + 0.1
                              for o in self.balls)
+        if self.confirmed_by_newcomer.get(info.name) == ball.id:
+            ball.ambiguous = True       # (the coil had fired, a newcomer reached the target before this ball even left)
+        if info.ball_switches and self.sim.now - entered <= info.entrance_count_delay + 0.1 and entered > 0:
+            # the ball that is kicked out rolled in less than a count delay ago: the device never counted it, so its
+            # departure changes nothing the device can see (the balls it did count are still there)
+            ball.ambiguous = True
         # arrival ambiguity: another ball reached the target a moment ago and the target has not finished counting it
         # yet; that count completes after this departure and is taken for this ball's arrival
         tinfo = self.devs.get(info.target.name)
@@ -384,6 +392,10 @@ class PinWorld:
                         self.ambiguous_reentries += 1
                         self.uncountable_devs.add(sinfo.name)
                         self.ctx.probe("arrival_ambiguity")
+                        self.confirmed_by_newcomer[sinfo.name] = e["ball"]
+                        for o in self.balls:
+                            if o.kind == "transit" and o.src == sinfo.name and o.dst == sinfo.name:
+                                o.ambiguous = True      # still dropping back: unknown to any controller from now on
                     break
         if dstname in self.devs:
             self._enter(ball, self.devs[dstname], fell_back)
